@@ -18,4 +18,5 @@ func genAll(repo string) {
 	genLabelIndex(repo)
 	genLocks(repo)
 	genAnnSync(repo)
+	genFixes(repo)
 }
